@@ -22,7 +22,7 @@ PROPS["C18"] = {
     "gen": ["SmallFft", "Consts", "Cmplx"],
     "lean_props": ["DspVerif.Props.C18", "DspVerif.Props.C18Total"],
     "harness": [{"src": "c18.cpp", "cfg": "rel",
-                 "tol": {"plR": (1e-13, 0.0), "plC": (1e-13, 0.0), "gcc": (1e-12, 1e-9), "gccm": (1e-12, 1e-9), "det": (1e-11, 0.0)}}],
+                 "tol": {"plR": (1e-13, 0.0), "plC": (1e-13, 0.0), "gcc": (1e-12, 1e-9), "gccm": (1e-12, 1e-9), "det": (1e-11, 0.0), "det2": (1e-11, 0.0)}}],
     "rule": "delayseq: every shift -N-2..N+2 for every N <= 9 (thorough 12), real and complex, + lengths 16..5000 with shifts 0, +-1, +-N/4, +-(N-1), +-N, +-(N+1), +-1e6, +-(2^31-1) and random; "
             "peakloc: lengths 1..500, every index (sampled for long arrays) x cyclic on/off x 6 content classes (gauss, 2^+-30 dynamic range, nearly flat, small integers with collinear triples, bump, exact parabola), real oracle = "
             "long-double vertex with conditioned tolerance, complex overload CORR only; finddelay / gccphat: quick = EVERY shift |d| <= len/4 for len 128, 129, 131 and 17 sampled shifts (0, +-1, +-2, +-len/4, +-(len/4-1), random) for 19 lengths to 5000; "
@@ -34,18 +34,40 @@ PROPS["C18"] = {
             "preamble kind {Zadoff-Chu root 1 / N-1 / random coprime, full-band chirp, m-sequence BPSK, m-sequence QPSK} with coefficient gain 0.1..10, received amplitude log-uniform over 60 dB, random carrier phase, "
             "background {silence, additive noise 30..60 dB below, other traffic 0..20 dB below not overlapping, noise floor 20..60 dB below not overlapping}, streams of 3..4 frames, calls of 1 frame or 1..3 frames, "
             "two thresholds per stream (uniform 0.3..0.9 and one of 0.3 / 0.5 / 0.9); every second stream also WITHOUT the preamble (silence, white noise, noise bursts, the same traffic with the preamble removed); "
+            "ROUND 2: preamble kind drawn from nine families, every second stream from the non-constant-envelope ones {real linear chirp, Hann/Hamming/Tukey/Gauss-windowed chirp, ternary PN (m-sequence gated by a second one), "
+            "multi-level PN (PAM-4/8, 16/64-QAM chips), amplitude-tapered PN}; thresholds also one ulp inside 0.3 and 0.9; score compared with sqrt(reference metric) to 1e-9; "
+            "every fourth offset (thorough: every second) also with SCALE CLASSES drawn independently for the coefficients {1e-100, 1e-17, 1e-8, 1, 1e8, 1e100, 2^-300, 2^300, 2^-7, 2^9} and the stream "
+            "{1e-5, 1e-3, 1, 1e8, 1e100, 2^-9, 2^40, 2^300 | below the eps() floor: 1e-7, 1e-8, 1e-17, 1e-100, 1e-300, denorm_min (the reference metric, which contains eps(), decides: nothing may be reported when it never crosses; "
+            "|score-1| <= 0.05 only when the window power exceeds 1000 eps()) | 1e+-160, 1e+-300: CORR only}, backgrounds as before plus negative-zero silence; streams louder than 1e4 containing windows of exact silence are counted, not judged "
+            "(ill-conditioned: rounding noise of the block correlator over eps()); "
+            "HISTORIES (det2 scripts, preamble lengths 16, 31, 64, 100, 256; thorough 14 lengths x 6): rejected calls of length 1, F-1, F+1, 2F+1, nh, 3F-1, 7F+3, 65537 filled with noise / a full preamble / the head of a preamble "
+            "before the first frame, between the start frame and the completion frame, between all frames together with empty calls; reset() after other material, after a report (reuse), in the middle of a preamble, on a fresh detector, twice, "
+            "with rejected calls around it; oracle = the property's clauses on the valid frames + bit-exact equality with a fresh detector fed the valid frames only (after reset(): offset and samples exact, score to 1e-9); "
+            "LONG STREAMS through one detector: one preamble after N samples, N in {3*2^14, 2^16, 2^17, 2^18} (thorough {3*2^14, 2^16, 3*2^15, 2^17, 3*2^16, 2^18, 2^19, 2^20}), its last sample at EVERY position of a window of "
+            "1..3 frames on both sides of N (quick: nh 16 / 17 / 32 / 63, thorough: 16, 17, 31, 32, 33, 63, 64, 65, 100, 127, 128, 255, 256, 511, 512), threshold drawn above the family member's own partial-overlap sidelobes, "
+            "background silence / negative-zero silence / denormal floor / uniform noise 38..56 dB below (long preambles), framing: single frames for every position and, for every 5th..9th, the history in ONE call (> 2^16, 2^17, 2^18 samples), "
+            "everything in one call, calls of 1..3 frames, small calls then one giant call containing the preamble, small calls + giant history call + single frames; offset, score and EVERY returned sample (bit for bit) checked; "
+            "SOAK: a copy of the preamble every 2*frame_len+1 samples (amplitude 1 / 0.5 / 2 and phase changing from copy to copy) over 2^17 samples for all 35 start phases (nh 16; thorough 2^18 for nh 16, 17, 31, 32, 63 and 2^20 for nh 16): "
+            "every (frame index, end offset) pair is visited, one report per copy with its offset, samples and score; "
+            "finddelay / gccphat: both operands independently scaled by {1e-100, 1e-17, 1e-8, 1, 1e8, 1e100, 2^-300, 2^300} (pairs with |log10(s1 s2)| > 140 skipped and counted: |corr|^2 leaves the double range; gccphat below eps CORR only), "
+            "delayseq / finddelay / gccphat on temporaries (bit-exact against named operands, const& binding, range-for over a temporary result), valid calls after a size-mismatch exception (bit-exact repeat); "
             "the hypothesis 'single-sample correlation peak' is decided per stream and threshold by a long-double brute-force evaluation of the normalised metric (crossing at alignment only, 1e-3 margin): "
             "streams outside it (short preambles at low thresholds) are counted in S lines and go through CORR; distinct = distinct protocol lines / oracle evaluations; non-trivial = all",
-    "technique": "Lean 4 proofs over hand-written executable models (peakloc / unwrap arithmetic over R; argmax, ring buffer and sample loop structurally; detector state machine on top of C07's FftFilter / MAFilter models) + "
+    "technique": "Lean 4 proofs over hand-written executable models (peakloc / unwrap arithmetic over R; argmax, ring buffer and sample loop structurally; detector state machine on top of C07's FftFilter / MAFilter models; "
+                 "reset() and rejected calls modelled for the correspondence run: det2 scripts on explicit or exactly regenerated streams of up to 2^18 samples) + "
                  "bit-exact differential correspondence on the real library (FFT parameters instantiated with the C01 plan model) + the property's own oracle (exact shift recovery, half-sample bound, long-double brute-force detector metric)",
     "level_note": "floating-point rounding is not modelled; the statistical content of the property (white signals of >= 128 samples peak at the true lag, PHAT interpolation offset below half a sample, preamble sidelobes below the threshold, "
                   "score near 1, no false detection on noise) is hypothesis of the theorems and MEASURED by the oracle; the models are hand-written and tied to the code by the correspondence run; T18.3 / T18.4 take the transforms as parameters "
                   "(fft = DFT is C01/C02; C07's circular-convolution hypothesis for the detector's correlation filter); after a report the C++ loop returns early, so the delay line misses the rest of that call (modelled; the property has one preamble per stream); "
-                  "the complex overload of peakloc is not a parabola vertex (theorem) and is covered by correspondence only",
+                  "the complex overload of peakloc is not a parabola vertex (theorem) and is covered by correspondence only; "
+                  "the detector is NOT scale-equivariant (eps() in pwx + eps() is absolute): below |x| ~ 1e-7 the score falls under 1 (0.557 at 1e-8) and above |x| ~ 4e7 exact silence next to the preamble can be reported "
+                  "(rounding noise of the block correlator over eps()); both regimes lie outside the property's 60 dB and are handled by the reference metric / counted as ill-conditioned, not judged; "
+                  "the soak streams (several preambles per stream) go beyond the single-preamble clause and rest on T18.4 (every state, every call)",
     "trusted_base": TB_COMMON + [
         "long double (x87 80-bit) brute-force evaluation of the detector metric and of the parabola vertex in harness/c18.cpp are taken as exact relative to the margins used (1e-3 on the threshold crossing, conditioned 16 eps on the vertex)",
         "Model/Fft.lean (C01 model of the library's FFT plan family) instantiates the transform parameters in the driver; Model/Fir.lean (C07) supplies FftFilter / MAFilter; Model/MathFns.lean (C17) supplies delayseq / argmax",
-        "harness generators: splitmix64 Gaussian / uniform / binary white signals, Zadoff-Chu / chirp / LFSR m-sequence preambles",
+        "harness generators: splitmix64 Gaussian / uniform / binary white signals, Zadoff-Chu / chirp / LFSR m-sequence preambles and the derived real / windowed / ternary / multi-level / tapered families; "
+        "the generated backgrounds of det2 (splitmix64 finaliser, 53-bit integer minus 2^52 times a power of two) are evaluated exactly by harness and driver",
     ],
     "assumptions": ["non-empty arrays, 0 <= idx < size for peakloc, preamble length >= 1, fs != 0, equal lengths for gccphat (a mismatch throws: modelled)",
                     "detector streams outside the hypothesis 'the normalised correlation crosses the threshold at alignment only' (e.g. 16..32-tap preambles at threshold 0.3, whose partial-overlap sidelobes or noise crossings exceed 0.09) are not oracle cases; "
